@@ -40,14 +40,24 @@ def _bump(k):
         COUNTS[k] += 1
 
 
-def coldesc(col):
+def _owner(p, rich):
+    """rich: a sub-query owner carries a digest of its own text, so that two sub-queries / CTEs sharing a name stay two owners"""
+    s = str(p)
+    if rich and hasattr(p, "query_raw"):
+        import hashlib
+
+        s += "@" + hashlib.sha1(str(p.query_raw).encode()).hexdigest()[:6]
+    return s
+
+
+def coldesc(col, rich=False):
     """Identity of a column as the public API prints it, plus its candidate owners."""
     ps = col.parent_candidates
     if len(ps) == 1:
-        return str(col)
+        return str(col) if not rich else _owner(ps[0], True) + "." + col.raw_name if hasattr(ps[0], "query_raw") else str(col)
     if len(ps) == 0:
         return "<none>." + col.raw_name
-    return "<" + "|".join(str(p) for p in ps) + ">." + col.raw_name
+    return "<" + "|".join(_owner(p, rich) for p in ps) + ">." + col.raw_name
 
 
 def dsdesc(t):
@@ -68,7 +78,13 @@ def holder_facts(h):
     owned = sorted(
         {coldesc(t) for s, t, ty in h.graph.edges(data="type") if ty == EdgeType.HAS_COLUMN and isinstance(t, Column)}
     )
+    rich = {
+        "col_edges_rich": sorted([coldesc(s, True), coldesc(t, True)] for s, t, ty in h.graph.edges(data="type")
+                                 if ty == EdgeType.LINEAGE and isinstance(s, Column) and isinstance(t, Column)),
+        "owned_columns_rich": sorted({coldesc(t, True) for s, t, ty in h.graph.edges(data="type") if ty == EdgeType.HAS_COLUMN and isinstance(t, Column)}),
+    }
     return {
+        **rich,
         "owned_columns": owned,
         "read": sorted(dsdesc(t) for t in h.read),
         "write": sorted(dsdesc(t) for t in h.write),
